@@ -22,8 +22,8 @@ def adaptive_case(draw, default_args=False):
     neutral = draw(st.one_of(st.none(), gens.array((m,), 0.2, 3.0, styles=("raw", "int"))))
     if neutral is not None:
         neutral = np.maximum(np.asarray(neutral), 0.2).tolist()
-    obj = draw(st.sampled_from(["unity", "unity", "max"]))
-    scale_w = draw(st.one_of(st.just(1.0), st.floats(0.2, 5.0), gens.array((2,), 0.2, 5.0, styles=("raw",))))
+    obj = draw(st.sampled_from(["unity", "unity", "max", "max"]))
+    scale_w = draw(st.one_of(st.just(1.0), st.floats(0.2, 5.0), gens.array((2,), 0.2, 5.0, styles=("raw",)), st.sampled_from([[1.0, 4.0], [4.0, 1.0], [1.0, 2.0], [2.0, 1.0], [1.0, 3.0], [3.0, 1.0]])))
     if isinstance(scale_w, list):
         scale_w = np.maximum(np.asarray(scale_w), 0.2).tolist()
     return dict(system=sysd, rows=rows, neutral=neutral, objective=obj, scale_w=scale_w,
@@ -196,7 +196,7 @@ PROP = Prop(
     rule=RULE,
     assumptions=["HiGHS LP over (X, s0, s1) is the reference for feasibility and optimal scales", "a RuntimeError is accepted only when the LP is infeasible (or feasible only without margin)"],
     subs=[
-        Sub("adaptive", adaptive_case(), body_adaptive, quick=800, thorough=20000, quick_shards=8, min_nt_share=0.3),
+        Sub("adaptive", adaptive_case(), body_adaptive, quick=2400, thorough=20000, quick_shards=8, min_nt_share=0.3),
         Sub("default_arguments", adaptive_case(default_args=True), body_default, quick=80, thorough=1000, quick_shards=2, thorough_shards=4, min_nt_share=0.3),
     ],
 )
